@@ -2,7 +2,13 @@
 """tools/mutant_matrix.py [ID ...] : run every seeded change (seeded/<ID>/patch.diff) against the quick check of its property in a scratch
 worktree (tools/try_mutant.sh) and record how it was caught in seeded/RESULTS.json: oracle (a failing input was found), correspondence (model and
 implementation disagree), broken-obligation (a generated definition / proof no longer checks), or MISSED."""
-import glob, json, os, subprocess, sys, time
+import glob, json, os, re, subprocess, sys, time
+
+
+def own_replays(out):
+    """the replay files named by this run's own VIOLATION lines (several matrices may run side by side and share replays/)"""
+    return sorted({m for m in re.findall(r'VIOLATION property=\S+ replay=(\S+)', out) if os.path.exists(m)})
+
 os.chdir('/verif')
 ids = sys.argv[1:] or sorted(os.path.basename(d) for d in glob.glob('seeded/C*-*'))
 res_path = os.environ.get('MATRIX_RESULTS', 'seeded/RESULTS.json')
@@ -14,7 +20,7 @@ for mid in ids:
     t = time.time()
     r = subprocess.run(['tools/try_mutant.sh', f'seeded/{mid}/patch.diff', prop], capture_output=True, text=True)
     out = r.stdout + r.stderr
-    new = sorted(set(glob.glob(f'replays/{prop}-*.json')) - before)
+    new = own_replays(out)
     kinds = {}
     for f in new:
         try:
@@ -38,7 +44,7 @@ for mid in ids:
         for other in also:
             before = set(glob.glob(f'replays/{other}-*.json'))
             r2 = subprocess.run(['tools/try_mutant.sh', f'seeded/{mid}/patch.diff', other], capture_output=True, text=True)
-            new2 = sorted(set(glob.glob(f'replays/{other}-*.json')) - before)
+            new2 = own_replays(r2.stdout + r2.stderr)
             k2 = {}
             for f in new2:
                 kk = json.load(open(f)).get('kind', '?')
